@@ -62,9 +62,9 @@ def _baseline(rng, small=False, lopsided=0.0, third_party=0.08):
     if lopsided and rng.random() < lopsided:
         # a unit that one party wins 99.5 : 0.5 (its baseline normalised margin is close to +-1)
         size = float(np.exp(rng.normal(6.0, 0.9)))
-        share = 0.995 if rng.random() < 0.5 else 0.005
-        bd = max(1, int(round(size * share)))
-        bg = max(1, int(round(size * (1 - share))))
+        share = [0.995, 0.005, 1.0, 0.0][int(rng.integers(0, 4))]  # incl. pure one-party units (margin exactly +-1)
+        bd = int(round(size * share)) if share in (0.0, 1.0) else max(1, int(round(size * share)))
+        bg = int(round(size * (1 - share))) if share in (0.0, 1.0) else max(1, int(round(size * (1 - share))))
         return bd, bg, int(rng.integers(0, 3))
     if small:
         bd = int(rng.integers(1, 15))
